@@ -243,7 +243,7 @@ type op struct {
 	PropKey string `json:"prop_key,omitempty"`
 	PropVal int    `json:"prop_val,omitempty"` // 0 keep, -1 delete key, 1.. value kinds
 	Salt    int    `json:"salt,omitempty"`
-	Expiry  int64  `json:"expiry,omitempty"`   // update: absolute unix ms, 0 keep
+	Expiry  int64  `json:"expiry,omitempty"` // update: absolute unix ms, 0 keep
 	SleepMs int64  `json:"sleep_ms,omitempty"`
 }
 
@@ -544,8 +544,19 @@ func genOps(rng *report.Rand, pool []*spec, cfg genCfg) []op {
 				o.Pending = 1 + rng.Intn(2)
 			}
 			if what&2 != 0 {
-				o.PropKey = []string{"bundlepack/receiver", "bundlepack/timestamp", "bundlepack/constraints", "routing/x", "k"}[rng.Intn(5)]
-				o.PropVal = 1 + rng.Intn(propKinds)
+				// keys the node itself reads carry the node's types (a node is started on the crash scripts' stores)
+				switch rng.Intn(5) {
+				case 0:
+					o.PropKey, o.PropVal = "bundlepack/receiver", 4
+				case 1:
+					o.PropKey, o.PropVal = "bundlepack/timestamp", 5
+				case 2:
+					o.PropKey, o.PropVal = "bundlepack/constraints", 6
+				case 3:
+					o.PropKey, o.PropVal = "c08/x", 1+rng.Intn(propKinds)
+				default:
+					o.PropKey, o.PropVal = "k", 1+rng.Intn(3)
+				}
 				o.Salt = rng.Intn(1000)
 				if rng.Chance(1, 6) {
 					o.PropVal = -1
